@@ -221,7 +221,7 @@ mod __verif_native_textures {
         }
         // ---------------- C19: 8-bit palette images in 8x4 blocks of any size, cropped (through the TPL reader)
         let palette: Vec<u16> = (0..256u32).map(|i| (i.wrapping_mul(40503) ^ (i << 7)) as u16 | if i % 3 == 0 { 0x8000 } else { 0 }).collect();
-        for &(w, h) in &[(8usize, 4usize), (16, 8), (5, 4), (5, 7), (16, 6), (12, 4), (20, 10), (9, 9), (1, 1), (33, 5), (8, 8), (64, 64)] {
+        for &(w, h) in &[(8usize, 4usize), (16, 8), (5, 4), (5, 7), (16, 6), (12, 4), (20, 10), (9, 9), (1, 1), (33, 5), (8, 8), (64, 64), (8, 6), (8, 1), (24, 3), (16, 13)] {
             let (aw, ah) = ((w + 7) / 8 * 8, (h + 3) / 4 * 4);
             let mut idx = payload(aw * ah, (w * 131 + h) as u32);
             // padding bytes differ from every real index so that a leak shows
@@ -231,6 +231,8 @@ mod __verif_native_textures {
             let show = || format!("TPL CI8 {}x{} file {}", w, h, hex(&file));
             match no_panic(|| Tpl::extract_textures(&file)) {
                 Ok(Ok(t)) => {
+                    // "yields width x height RGBA pixels ... cropped to the stated dimensions" is C19's own sentence
+                    if t.len() == 1 { check(t[0].pixel_data.len() == 4 * w * h, "C19.palette_image_yields_width_x_height_pixels", || format!("{} -> {} bytes of pixel data, {} expected", show(), t[0].pixel_data.len(), 4 * w * h)); }
                     if check(t.len() == 1 && t[0].width == w && t[0].height == h && t[0].pixel_data.len() == 4 * w * h, "C20.tpl_same_count_and_dimensions", show) {
                         let mut bad = None;
                         for y in 0..h { for x in 0..w { let at = ((y / 4) * (aw / 8) + x / 8) * 32 + (y % 4) * 8 + x % 8; let o = (y * w + x) * 4;
